@@ -396,6 +396,164 @@ fn desc(ks: &[K]) -> Value {
     json!(SLOTS.iter().zip(ks.iter()).map(|(s, k)| format!("{s}={k:?}")).collect::<Vec<_>>())
 }
 
+// ---------------------------------------------------------------------------
+// Part T: the set of zones (zonetree::tree::ZoneTree).
+// RFC 1034 4.3.2 step 2: the zone that answers a query is the nearest
+// ancestor zone of QNAME among the zones present - a function of the present
+// set only, whatever inserts and removals led to it.
+// ---------------------------------------------------------------------------
+const T_ZONES: [(&str, u16); 7] = [("z.", 1), ("a.z.", 1), ("b.a.z.", 1), ("c.z.", 1), ("y.", 1), (".", 1), ("a.z.", 3)];
+const T_QNAMES: [&str; 12] = [".", "z.", "a.z.", "b.a.z.", "x.b.a.z.", "x.a.z.", "c.z.", "x.c.z.", "x.z.", "y.", "x.y.", "w."];
+
+fn t_zone(i: usize) -> Zone {
+    use domain::base::iana::Class;
+    let (n, c) = T_ZONES[i];
+    domain::zonetree::ZoneBuilder::new(sname(n), Class::from_int(c)).build()
+}
+
+fn t_wire(name: &str) -> Vec<u8> {
+    let mut w = Vec::new();
+    for l in name.split('.').filter(|l| !l.is_empty()) {
+        w.push(l.len() as u8);
+        w.extend(l.to_ascii_lowercase().bytes());
+    }
+    w.push(0);
+    w
+}
+
+/// reference: index of the present zone of that class whose apex is the longest suffix of qname
+fn t_reference(present: u8, qname: &str, class: u16) -> Option<usize> {
+    let q = t_wire(qname);
+    let mut best: Option<(usize, usize)> = None;
+    for (i, (n, c)) in T_ZONES.iter().enumerate() {
+        if present & (1 << i) == 0 || *c != class {
+            continue;
+        }
+        let a = t_wire(n);
+        // suffix at a label boundary
+        let mut off = 0usize;
+        let mut hit = false;
+        loop {
+            if q[off..] == a[..] {
+                hit = true;
+                break;
+            }
+            let l = q[off] as usize;
+            if l == 0 {
+                break;
+            }
+            off += 1 + l;
+        }
+        if hit && best.map(|(_, len)| a.len() > len).unwrap_or(true) {
+            best = Some((i, a.len()));
+        }
+    }
+    best.map(|b| b.0)
+}
+
+fn zone_tree_part(ctx: &Ctx, stats: &Stats, quick: bool) -> (u64, u64) {
+    use domain::base::iana::Class;
+    use domain::zonetree::ZoneTree;
+    let depth = if quick { 4 } else { 5 };
+    let nops = T_ZONES.len() * 2; // insert i / remove i
+    let total = (1..=depth).map(|d| (nops as u64).pow(d as u32)).sum::<u64>();
+    let seqs: Vec<Vec<usize>> = {
+        let mut all = vec![vec![]];
+        let mut layer: Vec<Vec<usize>> = vec![vec![]];
+        for _ in 0..depth {
+            let mut next = Vec::with_capacity(layer.len() * nops);
+            for s in &layer {
+                for o in 0..nops {
+                    let mut t = s.clone();
+                    t.push(o);
+                    next.push(t);
+                }
+            }
+            all.extend(next.iter().cloned());
+            layer = next;
+        }
+        all
+    };
+    let states = std::sync::Mutex::new(BTreeSet::new());
+    // only maximal sequences need running: every prefix is checked on the way
+    seqs.par_iter().filter(|s| s.len() == depth).for_each(|seq| {
+        let show = |upto: usize| -> Vec<String> { seq[..upto].iter().map(|o| format!("{} {}/{}", if o % 2 == 0 { "insert" } else { "remove" }, T_ZONES[o / 2].0, T_ZONES[o / 2].1)).collect() };
+        let r = guard(|| {
+            let mut tree = ZoneTree::new();
+            let mut present: u8 = 0;
+            let mut out: Vec<(String, String, usize)> = Vec::new();
+            for (k, o) in seq.iter().enumerate() {
+                let i = o / 2;
+                let (n, c) = T_ZONES[i];
+                let was = present & (1 << i) != 0;
+                if o % 2 == 0 {
+                    let res = tree.insert_zone(t_zone(i));
+                    if was && res.is_ok() {
+                        out.push(("C08|zone-tree|insert-of-existing-apex-accepted".into(), format!("insert_zone({n}/{c}) returned Ok although that apex and class is present"), k + 1));
+                    }
+                    if !was && res.is_err() {
+                        out.push(("C08|zone-tree|insert-of-absent-apex-refused".into(), format!("insert_zone({n}/{c}) returned {:?} although no such zone is present", res.err()), k + 1));
+                    }
+                    present |= 1 << i;
+                } else {
+                    // the Result for an absent zone is not specified ("Removes the specified zone, if any")
+                    let _ = tree.remove_zone(&sname(n), Class::from_int(c));
+                    present &= !(1 << i);
+                }
+                stats.eval();
+                // observe
+                for q in T_QNAMES {
+                    for class in [1u16, 3u16] {
+                        let got = tree.find_zone(&sname(q), Class::from_int(class)).map(|z| (format!("{}", z.apex_name()), z.class().to_int()));
+                        let want = t_reference(present, q, class).map(|i| (T_ZONES[i].0.to_string(), T_ZONES[i].1));
+                        let norm = |x: Option<(String, u16)>| x.map(|(n, c)| (if n.ends_with('.') { n } else { format!("{n}.") }, c));
+                        let (got, want) = (norm(got), norm(want));
+                        if got != want {
+                            let kind = match (&got, &want) {
+                                (None, Some(_)) => "present-zone-not-found",
+                                (Some(_), None) => "removed-or-foreign-zone-found",
+                                _ => "not-the-nearest-ancestor",
+                            };
+                            out.push((format!("C08|zone-tree|find_zone|{kind}|last-op={}", if o % 2 == 0 { "insert" } else { "remove" }), format!("find_zone({q}, class {class}) = {:?}, nearest present ancestor zone is {:?}", got, want), k + 1));
+                        }
+                    }
+                }
+                for (j, (n2, c2)) in T_ZONES.iter().enumerate() {
+                    let got = tree.get_zone(&sname(n2), Class::from_int(*c2)).is_some();
+                    if got != (present & (1 << j) != 0) {
+                        out.push((format!("C08|zone-tree|get_zone|{}", if got { "removed-zone-still-there" } else { "present-zone-missing" }), format!("get_zone({n2}/{c2}) = {got}"), k + 1));
+                    }
+                }
+                let mut listed: Vec<(String, u16)> = tree.iter_zones().map(|z| (format!("{}", z.apex_name()), z.class().to_int())).map(|(n, c)| (if n.ends_with('.') { n } else { format!("{n}.") }, c)).collect();
+                listed.sort();
+                let mut want: Vec<(String, u16)> = T_ZONES.iter().enumerate().filter(|(j, _)| present & (1 << j) != 0).map(|(_, (n, c))| (n.to_string(), *c)).collect();
+                want.sort();
+                if listed != want {
+                    out.push(("C08|zone-tree|iter_zones-differs-from-present-set".into(), format!("iter_zones() = {:?}, present {:?}", listed, want), k + 1));
+                }
+                if !out.is_empty() {
+                    break; // do not explore through a violating state
+                }
+            }
+            (out, present)
+        });
+        match r {
+            Ok((out, present)) => {
+                states.lock().unwrap().insert(present);
+                for (sig, what, upto) in out {
+                    ctx.violation(&sig, &what, json!({"zone_tree_ops": show(upto)}));
+                }
+            }
+            Err(p) => {
+                ctx.violation(&format!("C08|zone-tree|panic|{}", panic_class(&p)), &p, json!({"zone_tree_ops": show(seq.len())}));
+            }
+        }
+    });
+    stats.count_n("zone-tree.sequences", total);
+    let n_states = states.lock().unwrap().len() as u64;
+    (total, n_states)
+}
+
 fn main() {
     let ctx = Ctx::new("C08", "model_checking");
     let stats = Stats::new();
@@ -576,6 +734,7 @@ fn main() {
             }
         }
     }
+    let (tree_seqs, tree_sets) = if replay_zone.is_none() { zone_tree_part(&ctx, &stats, quick) } else { (0, 0) };
     let t = transitions.load(std::sync::atomic::Ordering::Relaxed);
     ctx.finish(
         json!({
@@ -586,6 +745,7 @@ fn main() {
             "distinct_nontrivial": stats.distinct_count(),
             "rule": "states = all zone contents (kind per slot name, consistent with zone rules); transitions = histories executed on the real zone (builder fwd/rev, parsed zonefile, updater full replacement from bare and busy zones, write interface from bare / via remove_all, and for every single-slot neighbour content an updater edit, a write-interface edit and a write-interface edit after an abandoned attempt; thorough: also two committed write batches through every pair of successive single-slot edits); evaluations = (qname,qtype) queries + walks compared with the reference resolver",
             "exhaustive": true,
+            "zone_tree": {"zones": T_ZONES.iter().map(|(n, c)| format!("{n}/{c}")).collect::<Vec<_>>(), "qnames": T_QNAMES, "operation_sequences": tree_seqs, "final_zone_sets_reached": tree_sets, "rule": "every sequence of insert/remove over the 7 zones (two classes, nested apexes, root) to the depth bound on a real ZoneTree; after every step find_zone for every qname x class == nearest present ancestor (RFC 1034 4.3.2 step 2), get_zone and iter_zones == present set"},
             "slots": SLOTS,
             "qnames": QNAMES,
             "qtypes": QTYPES.iter().map(|t| t.to_string()).collect::<Vec<_>>(),
